@@ -317,6 +317,16 @@ func (e *Engine) trustedBase(prop string, used map[string]bool) []string {
 		out = append(out, s)
 	}
 	for k, fc := range e.cs.Funcs {
+		// flags trustedframe: the body is verified for its other obligations, its modifies clause is assumed at callers
+		if fc.Kind == "func" && fc.Flags["trustedframe"] && (used[k] || prop == "" || fc.Props[prop]) {
+			s := "frame of " + shortFuncName(k) + " (modifies clause assumed at its call sites, not checked against its body"
+			if fc.Trusted != "" {
+				s += ": " + fc.Trusted
+			}
+			out = append(out, s+")")
+		}
+	}
+	for k, fc := range e.cs.Funcs {
 		if !used[k] && fc.Kind != "func" {
 			continue
 		}
